@@ -983,6 +983,74 @@ def rule_r8(prog, res):
                     'order produces')
 
 
+def rule_r9(prog, res):
+    from . import c07
+    from ..report import Result
+    res.share('R9', 'the prefix allocator\'s locked re-check probes the map '
+              'that is keyed by namespace (C07-R4)', 'C07', c07.rule_r4, prog,
+              Result)
+
+
+def rule_r10(prog, res):
+    res.rule('R10', 'the memoizers return on every path (a thread that finds '
+             'the entry filled after waiting for the lock gets the entry, '
+             'not None) and keep what they cache in self.memo only, the dict '
+             'the invalidations clear')
+    m = prog.module('spyne.util.memo')
+    from ..flow import always_exits
+    n = 0
+    for c in m.classes.values():
+        f = c.methods.get('__call__')
+        if f is None or f.cls is not c or not c.name.startswith('memoize'):
+            continue
+        n += 1
+        ok = always_exits(f.node.body)
+        res.ob('R10', f.where, '%s.__call__ %s' % (
+            c.name, 'returns on every path' if ok else
+            'can fall off its end'), 'ok' if ok else 'VIOLATED')
+        if not ok:
+            res.finding('R10', '%s.__call__|falls-off' % c.name, f.where,
+                        '%s.__call__ has a path without a return: the '
+                        'caller gets None (get_flat_type_info: '
+                        'AttributeError out of the request) when another '
+                        'thread filled the entry while it waited for the '
+                        'lock' % c.name)
+        # cached state
+        tainted = {}
+        called = {id(c_.func) for c_ in ast.walk(f.node)
+                  if isinstance(c_, ast.Call)}
+        for a in walk_no_defs(f.node):
+            if isinstance(a, ast.Assign):
+                for y in ast.walk(a.value):
+                    if isinstance(y, ast.Attribute) and id(y) not in called \
+                            and unparse(y.value) == 'self' and y.attr not in (
+                                'memo', 'func', 'lock'):
+                        for t in a.targets:
+                            if isinstance(t, ast.Name):
+                                tainted[t.id] = y.attr
+        for r in walk_no_defs(f.node):
+            if not isinstance(r, ast.Return) or r.value is None:
+                continue
+            srcs = [y.attr for y in ast.walk(r.value) if isinstance(
+                y, ast.Attribute) and id(y) not in called and
+                unparse(y.value) == 'self' and
+                y.attr not in ('memo', 'func', 'lock')]
+            srcs += [tainted[y.id] for y in ast.walk(r.value)
+                     if isinstance(y, ast.Name) and y.id in tainted]
+            where = '%s:%d' % (m.relpath, r.lineno)
+            res.ob('R10', where, '%s.__call__ returns %s' % (
+                c.name, unparse(r.value)[:40]),
+                'VIOLATED' if srcs else 'ok')
+            if srcs:
+                res.finding('R10', '%s.__call__|cache-outside-memo|%s' % (
+                    c.name, srcs[0]), where, '%s.__call__ answers from '
+                    'self.%s: callers invalidate with <method>.memo.clear(), '
+                    'which does not reach it, so a class keeps its old flat '
+                    'type info after append_field/insert_field' % (
+                        c.name, srcs[0]))
+    res.floor('R10', 'memoizer __call__ methods', n, 2)
+
+
 def run(prog, res, tier):
     res.run_rule(rule_r1, prog, res)
     res.run_rule(rule_r2, prog, res, tier)
@@ -992,6 +1060,8 @@ def run(prog, res, tier):
     res.run_rule(rule_r6, prog, res)
     res.run_rule(rule_r7, prog, res)
     res.run_rule(rule_r8, prog, res)
+    res.run_rule(rule_r9, prog, res)
+    res.run_rule(rule_r10, prog, res)
 
 
 _W = 'spyne/server/wsgi.py'
@@ -1000,6 +1070,11 @@ _P = 'spyne/protocol/_base.py'
 _M = 'spyne/util/memo.py'
 
 MUTANTS = [
+    Mutant('memoizer-falls-off-after-lock', 'R10', 'fire', _M,
+           in_func('memoize_ignore_none.__call__',
+                   "                    return value\n"
+                   "        return self.memo.get(key)",
+                   "                    return value"), 'falls-off'),
     Mutant('validate-fast-path-outside-lock', 'R8', 'fire',
            'spyne/protocol/xml.py',
            in_func('XmlDocument.__validate_lxml',
